@@ -297,7 +297,7 @@ Section TLevels.
     change (str_eqb tag_TABLE_CELL tag_PARAGRAPH) with false in Ec.
     change (str_eqb tag_TABLE_CELL tag_RUN) with false in Ec.
     change (str_eqb tag_TABLE_CELL tag_TABLE_CELL) with true in Ec. cbv iota in Ec.
-    destruct (close_ok_props _ _ _ _ _ Ec) as (pr & g & Epr & Eg).
+    destruct (close_ok_props _ _ _ _ _ _ _ _ T3 Ec) as (pr & g & Epr & Eg).
     destruct (close_cell_step_full v e ks s3 pr g (NL (map NP new)) cells rows old I3 Epr Eg T3
                 ltac:(lia))
       as (s4' & Ec' & T4 & D4 & S4).
